@@ -197,6 +197,10 @@ impl ExecutorInner {
         if let Err(payload) = result {
             let model_id = CURRENT_MODEL_ID.replace(model_id_stash);
 
+            // In case this executor is nested in another one, give the outer
+            // executor its counter of in-flight messages back.
+            channel::THREAD_MSG_COUNT.set(msg_count_stash);
+
             return Err(ExecutorError::Panic(model_id, payload));
         }
         CURRENT_MODEL_ID.set(model_id_stash);
